@@ -58,7 +58,9 @@ def discard_callers(ctx, rule):
     if facts.has_fn(ccw):
         callers |= set(known_callers(facts, ccw))
     callers -= {ccw}
-    ctx.ob(rule, "clear_write_buffer|callers", callers <= {conn.TRY_WRITE, srv.REQUESTS} and conn.TRY_WRITE in callers, "clear_write_buffer is reached from %s (allowed: try_write, requests)" % sorted(callers))
+    from .util import calls_with_helpers
+    own = bool(calls_with_helpers(facts, facts.fn(conn.TRY_WRITE), "clear"))      # try_write empties the queue through a helper of its own
+    ctx.ob(rule, "clear_write_buffer|callers", callers <= {conn.TRY_WRITE, srv.REQUESTS} and (conn.TRY_WRITE in callers or own), "clear_write_buffer is reached from %s (allowed: try_write, requests; try_write discards after a failed write, through it or directly)" % sorted(callers))
     fn, lv = leaves(ctx, srv.REQUESTS)
     n = 0
     for lf in lv:
@@ -172,6 +174,11 @@ def paths(ctx, remap=None, only=None):
     except AnalysisError as e:
         b.fail("R06.1", "cannot-establish|abstract", str(e))
     if not b.failed():
+        b.replay(ctx)
+        ctx.ob("R06.1", "decided-by-abstract-value", True, "try_write does not have the in-place shape (%d clause(s) not matched); decided on the abstract value of the unsent bytes instead" % len(a.failed()))
+        return
+    if len(b.failed()) < len(a.failed()):
+        # neither holds; the abstract-value procedure understood more of the code (fewer clauses open): its findings are the report
         b.replay(ctx)
         ctx.ob("R06.1", "decided-by-abstract-value", True, "try_write does not have the in-place shape (%d clause(s) not matched); decided on the abstract value of the unsent bytes instead" % len(a.failed()))
         return
@@ -292,7 +299,7 @@ def _paths_classic(ctx):
                     tv = truth(c)
                     interrupted = tv if last_seg(t[1]) == "eq" else (None if tv is None else not tv)
         drains = [e for e in lf.events if e[0] == "call" and last_seg(e[3]) in ("drain", "split_off", "truncate", "remove", "rotate_left", "clear", "retain", "drain_filter") and buf_some(e[4][2][0]) is not None]
-        clears = [e for e in lf.events if e[0] == "call" and e[3] == conn.P + "clear_write_buffer"]
+        clears = [e for e in lf.events if e[0] == "call" and (e[3] == conn.P + "clear_write_buffer" or (last_seg(e[3]) == "clear" and "VecDeque" in e[3] and e[4][2] and self_field(e[4][2][0], "response_queue")))]
         takes = [e for e in lf.events if (e[0] == "call" and last_seg(e[3]) == "take" and (self_field(e[4][2][0], "response_buffer") or (stores and norm(strip_mut(look(e[4][2][0]))) == norm(strip_mut(stores[0][4]))))) or (e[0] == "assign" and e[3] == "(*_1).response_buffer" and e[4][0] == "agg" and e[4][2] == "None")]
         is_closed = rk[0] == "Err" and look(rk[1])[0] == "agg" and look(rk[1])[2] == "ConnectionClosed"
         if wres == "ok" and payload0 is True:
@@ -557,7 +564,9 @@ def paths_abstract(ctx):
                 if seg in ("pop_front", "pop_back", "remove", "swap_remove_front", "swap_remove_back"):
                     no_unsent = st["entry_none"] is True and st["slot"] in ("ENTRY", "NONE")
                     st["pops"].append((e, no_unsent))
-                elif seg in ("clear", "truncate", "drain", "retain", "split_off"):
+                elif seg == "clear":
+                    st["qcleared"] += 1         # what clear_write_buffer does to the queue, done here (with the slot: checked per outcome)
+                elif seg in ("truncate", "drain", "retain", "split_off"):
                     st["problems"].append("the response queue is emptied in place (%s)" % seg)
                 continue
             if p == "response::Response::write_all" and len(args) == 2:
@@ -804,7 +813,8 @@ def fifo(ctx, rule, field, allowed, floor=3):
                 # failed write / hang-up); anywhere else complete responses are lost without any write having failed
                 from .util import roots_of
                 roots = roots_of(facts, fn.name) or {fn.name}
-                ctx.ob(rule, "%s|discarded-only-by-clear_write_buffer|%s" % (field, fn.name.split("::")[-1]), roots <= {conn.P + "clear_write_buffer"}, "self.%s is emptied (%s) in %s, on behalf of %s" % (field, last_seg(callee), fn.name, sorted(roots)), fn.loc(site[0], site[1]))
+                # ... or of try_write itself, where R06.3 decides per write outcome when it may happen
+                ctx.ob(rule, "%s|discarded-only-by-clear_write_buffer|%s" % (field, fn.name.split("::")[-1]), roots <= {conn.P + "clear_write_buffer", conn.TRY_WRITE}, "self.%s is emptied (%s) in %s, on behalf of %s (allowed: clear_write_buffer; try_write, decided per write outcome)" % (field, last_seg(callee), fn.name, sorted(roots)), fn.loc(site[0], site[1]))
             ctx.ob(rule, "%s|%s|%s" % (field, fn.name.split("::")[-1], last_seg(callee) if callee else "escapes"), ok, "&mut self.%s is handed to %s in %s (allowed: %s)" % (field, callee, fn.name, sorted(allowed)), fn.loc(site[0], site[1]))
     for w in field_writers(facts, conn.HC, field):
         if w[3] in ("assign", "assign-inside", "call-result"):
